@@ -1289,6 +1289,8 @@ _W = 'chainables/courier_worker.py'
 _O = 'chainables/orchestrate.py'
 _U = 'utils/courier_utils.py'
 VARIANTS = [
+    OK('unused-workers-through-a-local', 'chainables/orchestrate.py',
+       "        worker_pool.release_all(unused_workers)", "        spare = unused_workers\n        worker_pool.release_all(spare)"),
     OK('stage-merge-through-a-local', 'chainables/orchestrate.py',
        "      agg_state = agg_fn.merge_states(agg_states)\n", "      merged_state = agg_fn.merge_states(agg_states)\n      agg_state = merged_state\n"),
     OK('next-batch-queue-through-a-local', 'chainables/courier_server.py',
